@@ -7,6 +7,7 @@ pub fn add(v: &mut Vec<sut::Cfg>) {
     toy_cfg!(v, U16, U4, "t", add_ctr32, add_ctr64, add_ctr128, add_belt);
     toy_cfg!(v, U16, U5, "t", add_ctr32, add_ctr64, add_ctr128, add_belt);
     toy_cfg!(v, U16, U16, "t", add_ctr32, add_ctr64, add_ctr128, add_belt);
+    toy_cfg!(v, U16, U12, "t", add_ctr32, add_ctr64, add_ctr128, add_belt);
     toy_cfg!(v, U24, U1, "t", add_ctr32, add_ctr64);
     toy_cfg!(v, U24, U3, "t", add_ctr32, add_ctr64);
 }
